@@ -379,6 +379,23 @@ func (g *gen) all(n int) {
 	for i := 0; i < 12; i++ {
 		g.arp()
 	}
+	// an explicitly empty --ipflags (no flag at all) together with the other packet options
+	for _, kind := range []string{"udp", "icmp"} {
+		for k := 0; k < 2; k++ {
+			c := g.base(kind, kind+"-cli-empty-ipflags")
+			c.IPFlg = 0
+			c.TTL = 33
+			c.HasPl = true
+			c.Pl = hex.EncodeToString([]byte("PING"))
+			c.Literal = k == 1
+			if k == 1 {
+				g.vpn(c)
+			}
+			g.toCLI(c)
+			c.Class = kind + "-cli-empty-ipflags"
+			g.emit(c)
+		}
+	}
 	// payloads written literally on the command line whose first / last characters are white space
 	// (space, tab, \v, \f, \r, U+0085, U+00A0): the datagram must carry them, payload = unquote(raw) exactly
 	blanks := []string{"20", "09", "0b", "0c", "0d", "c285", "c2a0"}
